@@ -12,12 +12,22 @@
    every step.
 3. (b') GenPropertySteps exports complete schedules of the three steps; the
    harness forces them with the gates prop.{set,update}.{validate,save,notify}.
-4. (c) randomised concurrent histories (2-3 clients, 1-2 service goroutines, two
-   subscribers, random pauses at the gates) and the gated runs are recorded as
-   inv/res/ev traces; TLC decides linearizability + event accounting with
-   TraceProperty.tla.
-Self-tests: corrupted expectations must be reported by the replay, corrupted
-traces must be rejected by TLC.
+   (b'') the emission itself is a snapshot of the subscriber table followed by one
+   send per subscriber, interleaved with subscribers leaving (unregisterEvent,
+   abrupt disconnection) and joining: design check of the per-subscriber
+   accounting (NeverTwice, StableExactlyOnce, NoEventOutsideWindow ...), vacuity
+   guard (Dev_IterateLiveSlice must break it), and the complete schedules (all
+   with one move during one service-side update / one remote set + simulated ones
+   with up to three moves and three writes) forced with the gate
+   signal.update.send on three raw subscribers + one subscriber of another signal.
+4. (c) randomised concurrent histories (2-3 clients, 1-2 service goroutines, three
+   subscribers of which two subscribe / unsubscribe / disconnect at random moments,
+   random pauses at the gates and between the sends of an emission) and the gated
+   runs are recorded as inv/res/ev/close/gone traces; TLC decides linearizability +
+   per-subscriber event accounting with TraceProperty.tla.
+Self-tests: corrupted expectations must be reported by the replays, corrupted
+traces (among them a duplicated event of a subscriber that comes and goes) must be
+rejected by TLC.
 """
 import json, os, random, re
 from vlib import Infra, log
@@ -119,6 +129,73 @@ def classify(ctx, what, rej):
                     {"source": what, "history": h, "event": e})
 
 
+SEND_ERR = "accepted-write-reports-delivery-error"
+
+
+def delivery_errors(ctx, what, hs, rejected):
+    """accepted writes (typed, valid) whose call returned an error: TraceProperty explains them
+    only by Dev_SendErrorFailsWrite (a subscriber was disconnecting during the call); each is a
+    failure of the real code (recorded as a known finding)."""
+    bad = {i for (i, _, _) in rejected}
+    n = 0
+    for i, h in enumerate(hs):
+        if i in bad:
+            continue
+        pend = {}
+        for l in h:
+            if '"inv"' not in l and '"err"' not in l:
+                continue
+            x = json.loads(l)
+            if x.get("k") == "inv":
+                pend[x["c"]] = x["op"]
+            elif x.get("k") == "res" and x["r"]["e"] == "err":
+                op = pend.get(x["c"]) or {}
+                if op.get("k") in ("set", "update") and op.get("n", -1) >= 0:
+                    n += 1
+                    ctx.failure(SEND_ERR, "%s history %d: %s %d was accepted (saved, broadcast) but returned an "
+                                "error while a subscriber was disconnecting" % (what, i, op["k"], op["n"]),
+                                {"source": what, "op": op, "history": h[:60]})
+    return n
+
+
+def after_leave(h):
+    """[(position, line)]: an `ev` for subscriber s carrying the value of a set requested after
+    the acknowledgement of s's unsubscription and returned before s subscribes again"""
+    out = []
+    for s in ("s2", "s3"):
+        left = None
+        pend = {}
+        for k, l in enumerate(h):
+            x = json.loads(l)
+            if x.get("k") == "res" and x.get("c") == s and left == "asked":
+                left = "out"
+            elif x.get("k") == "inv" and x.get("c") == s:
+                left = "asked" if x["op"]["k"] == "unsub" else None
+            elif left == "out" and x.get("k") == "inv" and x["op"]["k"] in ("set", "update") and x["op"]["n"] > 0:
+                pend[x["c"]] = x["op"]["n"]
+            elif left == "out" and x.get("k") == "res" and x.get("c") in pend and x["r"]["e"] == "":
+                n = pend.pop(x["c"])
+                out.append((k + 1, json.dumps({"bytes": [n % 256, n // 256, 0, 0], "k": "ev", "s": s}, separators=(",", ":"))))
+            elif x.get("k") == "res":
+                pend.pop(x.get("c"), None)
+    return out
+
+
+def mid_emission(v):
+    """a subscriber leaves or joins (table changed) while an emission is parked between its
+    snapshot and its last send"""
+    open_em = set()
+    for st in v["steps"]:
+        if st["st"] in ("snapshot", "send"):
+            if st["nx"]:
+                open_em.add(st["a"])
+            else:
+                open_em.discard(st["a"])
+        elif st["st"] in ("unreg", "disc", "reg") and open_em:
+            return True
+    return False
+
+
 def run(ctx):
     thorough = ctx.tier == "thorough"
     rnd = random.Random(ctx.seed)
@@ -127,6 +204,17 @@ def run(ctx):
     ctx.design_check("Property", "MCProperty_thorough.cfg" if thorough else "MCProperty.cfg", workers=4, timeout=1500)
     ctx.design_check("PropertySteps", "MCPropertySteps_thorough.cfg" if thorough else "MCPropertySteps.cfg",
                      workers=4, timeout=1500, coverage=thorough)
+    churn = ctx.design_check("PropertySteps", "MCPropertySteps_churn_thorough.cfg" if thorough else "MCPropertySteps_churn.cfg",
+                             workers=4, timeout=2400, coverage=thorough)
+    ctx.extra["c14_churn_model_states"] = churn.distinct
+    # vacuity guards: the accounting invariants must be sensitive to the aliasing of the live slice
+    for cfg, inv in (("MCPropertySteps_live.cfg", "NeverTwice"), ("MCPropertySteps_live2.cfg", "StableExactlyOnce")):
+        lv = ctx.tlc("PropertySteps", cfg, workers=2, count=False, expect_ok=False)
+        if inv not in lv.violated:
+            raise Infra("Dev_IterateLiveSlice does not violate %s in the model (%s): %s" % (inv, cfg, lv.violated))
+    se = ctx.tlc("PropertySteps", "MCPropertySteps_senderr.cfg", workers=2, count=False, expect_ok=False)
+    if "AcceptedWriteReturnsOK" not in se.violated:
+        raise Infra("Dev_SendErrorFailsWrite does not violate AcceptedWriteReturnsOK in the model: %s" % se.violated)
     dev = ctx.tlc("Property", "MCProperty_dev.cfg", workers=2, count=False, expect_ok=False)
     if not (set(dev.violated) & {"StoredTyped", "TypedReads", "AcceptedWritesValidated"}):
         raise Infra("Dev_ValidateByBytesOnly does not violate the typed-register invariants: %s" % dev.violated)
@@ -152,7 +240,7 @@ def run(ctx):
     if n < 5000:
         raise Infra("behaviour export too small: %d" % n)
     res = ctx.harness_json("signal", ["c14-replay", beh], timeout=3000)
-    if res["evaluations"] != n - 1:
+    if res["evaluations"] != n - 1 and not res.get("failures"):
         raise Infra("replayed %d of %d behaviours" % (res["evaluations"], n - 1))
     ctx.traces += res["evaluations"]
     ctx.failures(res["failures"])
@@ -218,6 +306,61 @@ def run(ctx):
     ctx.extra["c14_gated_distinct_interleavings"] = rg["distinct"]
     ctx.extra["c14_gated_fail_count"] = rg.get("fail_count")
 
+    # ---- 3b. schedules with a changing set of subscribers -----------------------------
+    csched = []
+    for cfg in ("GenPropertySteps_churn_u.cfg", "GenPropertySteps_churn_m.cfg"):
+        gc = ctx.tlc("GenPropertySteps", cfg, workers=1, count=False, timeout=1200)
+        csched += gc.printed("S")
+        del gc
+    nex = len(csched)
+    if nex < 2000:
+        raise Infra("churn schedule export too small: %d" % nex)
+    gc = ctx.tlc("GenPropertySteps", "GenPropertySteps_churn_sim.cfg", workers=1, count=False,
+                 simulate="num=%d" % (6000 if thorough else 400), depth=80, seed=ctx.seed, timeout=2400)
+    csched += gc.printed("S")
+    del gc
+    if len(csched) - nex < 300:
+        raise Infra("simulated churn schedules: %d" % (len(csched) - nex))
+    cp = ctx.path("c14-churn.ndjson")
+    with open(cp, "w") as f:
+        for v in csched:
+            f.write(json.dumps({"K": "S", "V": v}) + "\n")
+    ctrace = ctx.path("c14-churn.trace")
+    rc = ctx.harness_json("signal", ["c14-churn", cp, ctrace], timeout=3000)
+    if rc["evaluations"] != len(csched):
+        raise Infra("forced %d of %d churn schedules" % (rc["evaluations"], len(csched)))
+    ctx.traces += rc["evaluations"]
+    ctx.failures(rc["failures"])
+    ctx.extra["c14_churn_schedules"] = {"exhaustive_one_move": nex, "simulated": len(csched) - nex,
+                                        "distinct": rc["distinct"]}
+    ctx.extra["c14_churn_fail_count"] = rc.get("fail_count")
+    ctx.extra.update(rc.get("extra") or {})
+    moved = sum(1 for v in csched if any(st["st"] in ("unreg", "disc", "reg") for st in v["steps"]))
+    mid = sum(1 for v in csched if mid_emission(v))
+    ctx.extra["c14_churn_schedules"]["with_a_move"] = moved
+    ctx.extra["c14_churn_schedules"]["move_between_two_sends"] = mid
+    if mid < 300:
+        raise Infra("only %d schedules move a subscriber between two sends of an emission" % mid)
+    # self-test of the churn binding: a subscriber wrongly declared entitled / not allowed must be reported
+    pick = [v for v in csched[:nex] if v["acct"] and len(v["acct"][0]["must"]) >= 2][:: max(1, nex // 40)][:30]
+    bad = ctx.path("c14-churn-bad.ndjson")
+    with open(bad, "w") as f:
+        for j, v in enumerate(pick):
+            v = json.loads(json.dumps(v))
+            a = v["acct"][0]
+            if j % 2 == 0:
+                a["must"] = a["must"] + ["f"]                 # an event that never comes
+            else:
+                s0 = a["must"][0]
+                a["must"] = [x for x in a["must"] if x != s0]
+                a["may"] = [x for x in a["may"] if x != s0]   # an event nobody allowed
+            f.write(json.dumps({"K": "S", "V": v}) + "\n")
+    rb2 = ctx.harness_json("signal", ["c14-churn", bad], timeout=600)
+    fc = rb2.get("fail_count") or {}
+    nb2 = fc.get("churn/events/missing", 0) + fc.get("churn/events/outside-subscription", 0)
+    if len(pick) < 10 or nb2 != len(pick):
+        raise Infra("churn replay self-test: %d corrupted accountings, %d reported (%s)" % (len(pick), nb2, fc))
+
     # ---- 4. recorded histories, linearizability by TLC ---------------------------
     rec = ctx.path("c14-rec.trace")
     nh = 1500 if thorough else 120
@@ -229,20 +372,38 @@ def run(ctx):
     classify(ctx, "recorded", rej)
     ngat, rej2 = validate(ctx, gtrace, "gated")
     classify(ctx, "gated", rej2)
-    ctx.traces += nrec + ngat
-    ctx.extra["c14_histories_validated"] = nrec + ngat
-    ctx.extra["c14_histories_rejected"] = len(rej) + len(rej2)
+    nchu, rej3 = validate(ctx, ctrace, "churn")
+    classify(ctx, "churn", rej3)
+    ctx.traces += nrec + ngat + nchu
+    ctx.extra["c14_histories_validated"] = nrec + ngat + nchu
+    ctx.extra["c14_histories_rejected"] = len(rej) + len(rej2) + len(rej3)
     hs = histories([l for l in open(rec).read().splitlines() if l.strip()])
+    ctx.extra["c14_record_delivery_error_results"] = delivery_errors(ctx, "recorded", hs, rej)
+    lines = open(rec).read()
+    ctx.extra["c14_record_churn"] = {"unsub": lines.count('"k":"unsub"'), "close": lines.count('"k":"close"'),
+                                     "gone": lines.count('"k":"gone"')}
+    if ctx.extra["c14_record_churn"]["unsub"] < nh // 4 or ctx.extra["c14_record_churn"]["close"] < nh // 8:
+        raise Infra("recorded histories hold too little subscriber churn: %s" % ctx.extra["c14_record_churn"])
     if hs:
         ctx.sample({"history": [json.loads(x) for x in hs[0][:14]]})
 
     # self-test of the trace binding: corrupted histories must be rejected
-    good = [h for k, h in enumerate(hs) if k not in {i for (i, _, _) in rej}][:30]
+    good = [h for k, h in enumerate(hs) if k not in {i for (i, _, _) in rej}][:100]
     caught = tried = 0
-    for mode in ("read", "drop-ev", "dup-ev", "flip-result"):
+    for mode in ("read", "drop-ev", "dup-ev", "flip-result", "dup-ev-churner", "ev-after-leave", "ev-foreign"):
         for h in good:
             idx = None
-            if mode == "read":
+            if mode == "dup-ev-churner":
+                # a subscriber that comes and goes in this history receives one event twice
+                movers = {s for s in ("s2", "s3") if ('"k":"unsub","kind":"","n":0,"s":"%s"' % s) in "".join(h)
+                          or ('"k":"close","s":"%s"' % s) in "".join(h)}
+                idx = [k for k, l in enumerate(h) if '"k":"ev"' in l and json.loads(l)["s"] in movers]
+            elif mode == "ev-after-leave":
+                # an event of a write requested after the unsubscription was acknowledged
+                idx = after_leave(h)
+            elif mode == "ev-foreign":
+                idx = [k for k, l in enumerate(h) if '"k":"ev"' in l]
+            elif mode == "read":
                 idx = [k for k, l in enumerate(h) if '"k":"res"' in l and '"sig":"i"' in l]
             elif mode in ("drop-ev", "dup-ev"):
                 idx = [k for k, l in enumerate(h) if '"k":"ev"' in l]
@@ -256,8 +417,12 @@ def run(ctx):
                 x = json.loads(h2[k]); x["r"]["bytes"] = [77, 77, 0, 0]; h2[k] = json.dumps(x, separators=(",", ":"))
             elif mode == "drop-ev":
                 del h2[k]
-            elif mode == "dup-ev":
+            elif mode in ("dup-ev", "dup-ev-churner"):
                 h2.insert(k, h2[k])
+            elif mode == "ev-after-leave":
+                h2.insert(k[0], k[1])
+            elif mode == "ev-foreign":
+                x = json.loads(h2[k]); x["s"] = "f"; h2.insert(k, json.dumps(x, separators=(",", ":")))
             else:
                 x = json.loads(h2[k]); x["r"]["e"] = "" if x["r"]["e"] else "err"; h2[k] = json.dumps(x, separators=(",", ":"))
             p = ctx.path("c14-selftest.ndjson")
@@ -269,19 +434,27 @@ def run(ctx):
             if mark != nn + 1:
                 caught += 1
             break
-    if tried < 3 or caught != tried:
+    if tried < 6 or caught != tried:
         raise Infra("trace self-test: %d of %d corrupted histories rejected" % (caught, tried))
-    ctx.extra["c14_selftest"] = {"replay_corruptions_reported": nb, "trace_corruptions_rejected": caught}
+    ctx.extra["c14_selftest"] = {"replay_corruptions_reported": nb, "churn_corruptions_reported": nb2,
+                                 "trace_corruptions_rejected": caught}
     ctx.extra["exhaustive"] = True
     ctx.extra["explanation"] = ("exhaustive TLC check of the sequential typed register and of its refinement by the "
                                 "validate/save/notify step model; every transition of the register graph and every "
                                 "operation sequence up to the depth replayed on real objects; complete schedules of "
-                                "the three steps forced with gates; recorded concurrent histories linearized by TLC")
+                                "the three steps forced with gates; exhaustive check of the per-subscriber event "
+                                "accounting of the snapshot/send emission under subscriber churn, its schedules "
+                                "forced on three raw subscribers; recorded concurrent histories with subscriber "
+                                "churn linearized and accounted by TLC")
     ctx.assumptions += [
         "the service's validator is the harness's (rejects negative values), as in examples/space",
         "a wrongly-typed write may be rejected or accepted as the value-preserving int32 conversion; both are "
         "allowed, nothing else",
-        "order of change events relative to the order of writes is not demanded by the property",
+        "order of change events relative to the order of writes is not demanded by the property (only the order "
+        "of the events of one writer)",
+        "a subscriber whose (un)subscription or disconnection overlaps a write's call may or may not receive "
+        "that event (never twice); entitled = acknowledged before the write was accepted (forced schedules) / "
+        "before the write was requested (recorded histories) and no request to leave before the emission ended",
         "events are observed on the subscriber's connection (exact after a fence call) and on the generated "
         "Subscribe<Prop> channel (bounded wait T_BOUND = 5 s / 20 s thorough)",
     ]
